@@ -159,7 +159,11 @@ def run_case(rng, tier, case):
             case.key = env.spec_key(gen.strip_private(spec)); case.sample = dict(gen.abbreviate(spec), solver=solver, split=split); case.spec = spec
             r = flow.run_portfolio(spec, split=split, solver=solver, do_extract=False, rec=rec)
             if not r.ok:
-                case.reject(flow.describe_error(r))
+                if r.stage == 'optimize':
+                    # the problem was assembled; optimize must return a solution or a status, not raise
+                    case.check('opt.optimize_does_not_raise', False, solver=solver, split=split, error=flow.describe_error(r))
+                else:
+                    case.reject(flow.describe_error(r))
             elif split and r.solved:
                 # concatenation: x is the concatenation and value the sum of the recorded per-interval results
                 evs = [e for e in rec.of('optimize') if e.ret is not None and not isinstance(e.ret, str)]
